@@ -139,6 +139,12 @@ def build_named(spec, names, eps):
     delta = collections.defaultdict(set)
     for (p, x, q) in tr:
         delta[names[p], Sg[x] if x < k else eps].add(names[q])
+    if spaces.KNOBS['shared']:
+        # dict.fromkeys style: every key is present, keys with equal target sets hold ONE shared set object
+        pool = {}
+        for q in names[:n]:
+            for a in Sg + [eps]:
+                delta[q, a] = pool.setdefault(frozenset(delta[q, a]), delta[q, a])
     return NFA(set(names[:n]), set(Sg), delta, names[q0], {names[i] for i in range(n) if fb >> i & 1}, eps)
 
 
@@ -286,9 +292,11 @@ def plan(tier, seed):
         tasks.append(('plain', P + 't_hist', {'pool_index': pi, 'eps': 'ε', 'depth': 2, 'gens': ['default', 'private9'], 'logging': True}))
         if not q:
             tasks.append(('plain', P + 't_hist', {'pool_index': pi, 'eps': '_', 'depth': 3, 'gens': ['default', 'private']}))
+    base = list(tasks)
+    tasks += common.knob_copies(base, lambda name, p: name.endswith('t_pairs') and (p['n1'] == 1 or p['shard'] % 4 == 0) or (name.endswith('t_hist') and p['depth'] == 2 and p['eps'] == '' ), {'shared': True})
     return {'tasks': tasks, 'bounds': {'pairs': 'NFA(1,1,all)^2 all; NFA(2,1,<=3)^2 stride 1/{}; NFA(2,1,<=2) x NFA(1,1) stride 1/{}; 5 name schemes (s/r, q0q1/q2q3, q1q0/q3q2, q2q3/q0q1, q0p/q1r); epsilon spelled \'\', _, ε; default and private identifier generator'.format(256 if q else 16, 8 if q else 1),
                                        'histories': '{} pools x 3 epsilon spellings, all call sequences of depth <= 2 (default + private generator), depth <= 3 with the default generator'.format(len(POOLS))},
             'exhaustive': True,
             'rule': 'pairs: every operand pair x name scheme x epsilon spelling x operation, each from the pristine library state; histories: breadth-first search over all sequences of the three constructions on a pool (results join the pool), every step judged against reference constructions on operand snapshots taken before the call; states = canonical pool contents + hidden generator counters',
             'assumptions': ['operands of one call have disjoint state sets and the same epsilon symbol (precondition of the constructions)',
-                            'pristine state = module globals, function defaults and class attributes restored from a deep copy taken at import', 'also with GambaTools.enable_logging = True, with a private generator starting at 9, and with operand names around the decimal carry (q9, q10)']}
+                            'pristine state = module globals, function defaults and class attributes restored from a deep copy taken at import', 'also with GambaTools.enable_logging = True, with a private generator starting at 9, and with operand names around the decimal carry (q9, q10)', 'wave 5: operands whose transition dict holds ONE shared set object under all keys with equal targets (dict.fromkeys style, all keys present)']}
